@@ -736,6 +736,7 @@ def rebase(snapshot, ghost_before, current):
 #   R30a  `if C { return; } REST }`            -> `if !(C) { REST } }`              (unit fn, the `if` is a statement of the fn body)
 #   R30b  `if C { BODY } }` (last stmt of fn)  -> `if !(C) { return; } BODY }`      (unit fn, no else)
 #   R30c  `if C { X; return; } REST }`         -> `if C { X } else { REST } }`      (unit fn; `}` closes a block that runs to the fn end)
+#   R30d  `if C { continue; } REST }`          -> `if !(C) { REST } }`              (`}` closes the body of a for / while / loop; R30e is the reverse)
 #   R31a  `if A { if B { X } }`                -> `if A && B { X }`                 (no else on either, no `let` in A or B)
 #   R31b  `if A && B { X }`                    -> `if A { if B { X } }`             (no else, split at a top-level &&)
 #   R32a  `match E { P => X, Q => Y }`         -> `if let P = E { X } else { Y }`   (two arms, no guards, Q binds nothing)
@@ -815,6 +816,16 @@ def _tail_block(ts, o, bo):
         if o is None: return False
     return False
 
+def _is_loop_body(ts, o):
+    """ts[o] == '{' opens the body of a for / while / loop"""
+    j = o - 1; d = 0
+    while j >= 0:
+        if ts[j] in (')', ']'): d += 1
+        elif ts[j] in ('(', '['): d -= 1
+        elif d == 0 and ts[j] in (';', '{', '}', 'if', 'else', 'while', 'for', 'loop', 'match', '=>', '|'): break
+        j -= 1
+    return j >= 0 and ts[j] in ('while', 'for', 'loop')
+
 def _is_unit_fn(ts, bo):
     return '->' not in [str(t) for t in ts[:bo]]
 
@@ -843,6 +854,12 @@ def _norm_candidates(ts):
                         yield 'R30c', ts[:i] + ts[i:o + 1] + body[:-2] + [ts[c], Tok('else'), Tok('{')] + ts[c + 1:ec] + [Tok('}')] + ts[ec:]
                     if c + 1 == ec:                                                                    # R30b
                         yield 'R30b', ts[:i] + [ts[i]] + _neg(cond) + [ts[o], Tok('return'), Tok(';'), ts[c]] + body + ts[ec:]
+                if not has_else and enc is not None and _is_loop_body(ts, enc):
+                    ec = match_close(ts, enc)
+                    if [str(x) for x in body] == ['continue', ';']:                                    # R30d
+                        yield 'R30d', ts[:i] + [ts[i]] + _neg(cond) + [ts[o]] + ts[c + 1:ec] + [ts[c]] + ts[ec:]
+                    if c + 1 == ec and 'continue' not in [str(x) for x in ts[enc:i]]:                  # R30e
+                        yield 'R30e', ts[:i] + [ts[i]] + _neg(cond) + [ts[o], Tok('continue'), Tok(';'), ts[c]] + body + ts[ec:]
                 if not has_else and 'let' not in cond:
                     if body and body[0] == 'if' and (len(body) > 1 and body[1] != 'let'):              # R31a
                         o2 = _cond_end(body, 0)
@@ -909,16 +926,20 @@ def _lcs_dist(a, b):
     m = sum(bl.size for bl in sm.get_matching_blocks())
     return (len(a) - m) + (len(b) - m)
 
-def directed_normalize(cur, snap, max_steps=6):
-    """returns (tokens, [rule names applied]); tokens is `cur` itself when no rule helps"""
-    cur = list(cur); s = strs(snap); applied = []
-    best = _lcs_dist(strs(cur), s)
+def directed_normalize(raw, snap, pipeline, max_steps=6):
+    """raw: the real tokens of the function as located in /repo; pipeline: raw tokens -> tokens after drop list / rewrite table.
+    The rules are applied to the RAW tokens (before the loop rewrites, so that a `continue` guard does not change the loop form) and
+    a candidate is judged by the distance of its pipelined form to the snapshot.  Returns (pipelined tokens, [rule names applied])."""
+    raw = list(raw); s = strs(snap); applied = []
+    cur = pipeline(raw); best = _lcs_dist(strs(cur), s)
     for _ in range(max_steps):
         if best == 0: break
         pick = None
-        for name, cand in _norm_candidates(cur):
-            d = _lcs_dist(strs(cand), s)
-            if d < best and (pick is None or d < pick[0]): pick = (d, name, cand)
+        for name, cand in _norm_candidates(raw):
+            try: pc = pipeline(cand)
+            except Exception: continue
+            d = _lcs_dist(strs(pc), s)
+            if d < best and (pick is None or d < pick[0]): pick = (d, name, cand, pc)
         if pick is None: break
-        best, name, cur = pick; applied.append(name)
+        best, name, raw, cur = pick; applied.append(name)
     return cur, applied
